@@ -150,8 +150,51 @@ pub fn exec(case: &[i64]) -> Outcome {
       if let Some(w) = why { o = o.fail(&w); }
       o
     }
+    5 => {
+      // the status entry itself: [type_ok, prop kind (0 absent 1 number 2 string), <prop text>, id kind (0 DID URL 1 https URL), <query text>, id_ok, n (<decoded index value>).., <set>, i]
+      let type_ok = take1(&mut v).unwrap() != 0; let pk = take1(&mut v).unwrap(); let ptext = String::from_utf8_lossy(&take_bytes(&mut v).unwrap()).to_string();
+      let idk = take1(&mut v).unwrap(); let q = String::from_utf8_lossy(&take_bytes(&mut v).unwrap()).to_string(); let id_ok = take1(&mut v).unwrap() != 0;
+      let nq = take1(&mut v).unwrap(); for _ in 0..nq { let _ = take_bytes(&mut v); }
+      let set = sorted_set(take_lp(&mut v).unwrap()); let i = take1(&mut v).unwrap() as u32;
+      let id = status_id(idk, &q);
+      let mut st = json!({"id": id, "type": if type_ok { "RevocationBitmap2022" } else { "StatusList2021Entry" }});
+      match pk { 1 => { st["revocationBitmapIndex"] = json!(5); } 2 => { st["revocationBitmapIndex"] = json!(ptext); } _ => {} }
+      let status = match identity_credential::credential::Status::from_json_value(st.clone()) { Ok(s) => s, Err(_) => return Outcome::new(vec![-7]).class("unbuildable").trivial() };
+      let mut obs = vec![]; let mut why: Option<String> = None;
+      let tf = identity_credential::credential::RevocationBitmapStatus::try_from(status.clone());
+      match &tf { Ok(r) => { match r.index() { Ok(n) => obs.extend([0, n as i64]), Err(_) => { obs.extend([0, -6]); why = Some("an accepted status entry does not give its index".into()); } }
+                             if r.id().is_ok() != id_ok { why = Some("id() of an accepted status entry disagrees with DIDUrl::parse of its id".into()); } }
+                  Err(_) => obs.push(1) }
+      // validation over a document whose service #f7 holds the set
+      let doc = CoreDocument::from_json_value(json!({"id": DID1, "service": [service_json(&svc_id(1, 7), 1, json!(format!("{PREFIX}{}", BaseEncoding::encode(&zcomp(&rser(&set)), Base::Base64Url))))]})).unwrap();
+      let cred = Credential::<Object>::from_json_value(json!({"@context": "https://www.w3.org/2018/credentials/v1", "type": "VerifiableCredential", "issuer": DID1, "issuanceDate": Timestamp::from_unix(0).unwrap().to_rfc3339(), "credentialSubject": {"id": "did:example:s"}, "credentialStatus": st}));
+      match cred { Err(_) => obs.push(-7), Ok(cred) => {
+        let r = JwtCredentialValidatorUtils::check_status(&cred, std::slice::from_ref(&doc), StatusCheck::Strict);
+        let code = match &r { Ok(()) => 0, Err(JwtValidationError::Revoked) => 1, Err(JwtValidationError::InvalidStatus(_)) => 2, Err(_) => 3 };
+        obs.push(code);
+        if let Ok(x) = &tf { if id_ok && idk == 0 { let member = x.index().map_or(false, |n| set.binary_search(&n).is_ok()); if (code == 1) != member || (code == 0) == member { why = Some("validation does not report 'revoked' exactly when the entry's index is a member of the service's bitmap".into()); } } }
+        else if code == 0 || code == 1 { why = Some("validation evaluated a status entry that RevocationBitmapStatus::try_from refuses".into()); }
+      } }
+      // RevocationBitmapStatus::new(id, i) is accepted and gives i back
+      if let Ok(u) = identity_did::DIDUrl::parse(format!("{DID1}#f7")) { let n = identity_credential::credential::RevocationBitmapStatus::new(u, i);
+        match identity_credential::credential::RevocationBitmapStatus::try_from(identity_credential::credential::Status::from(n.clone())) { Ok(b) if b.index().ok() == Some(i) && n.index().ok() == Some(i) => obs.extend([0, i as i64]), _ => { obs.push(1); why = Some("a status entry built by RevocationBitmapStatus::new is not accepted with its own index".into()); } } }
+      let mut o = Outcome::new(obs).class(if tf.is_ok() { "status-accepted" } else { "status-refused" });
+      if let Some(w) = why { o = o.fail(&w); }
+      o
+    }
     _ => Outcome::new(vec![-998]).fail("bad case kind"),
   }
+}
+fn status_id(idk: i64, q: &str) -> String { let base = if idk == 0 { DID1.to_string() } else { "https://status.example/list".to_string() }; if q.is_empty() { format!("{base}#f7") } else { format!("{base}?{q}#f7") } }
+fn case5(type_ok: bool, pk: i64, ptext: &str, idk: i64, q: &str, set: &[u32], i: u32) -> Option<Vec<i64>> {
+  let id = status_id(idk, q);
+  let url = Url::parse(&id).ok()?;
+  let vals: Vec<Vec<u8>> = url.query_pairs().filter(|(k, _)| k == "index").map(|(_, v)| v.as_bytes().to_vec()).collect();
+  let id_ok = !id.contains('%') && identity_did::DIDUrl::parse(url.as_str()).is_ok();
+  let mut c = vec![5, type_ok as i64, pk]; put_bytes(&mut c, ptext.as_bytes()); c.push(idk); put_bytes(&mut c, q.as_bytes()); c.push(id_ok as i64);
+  c.push(vals.len() as i64); for v in &vals { put_bytes(&mut c, v); }
+  let mut s = set.to_vec(); s.sort(); s.dedup(); c.push(s.len() as i64); c.extend(s.iter().map(|x| *x as i64)); c.push(i as i64);
+  Some(c)
 }
 
 fn case12(kind: i64, set: &[u32]) -> Vec<i64> {
@@ -212,6 +255,15 @@ pub fn gen(rng: &mut Rng, thorough: bool, sink: &mut Sink) {
   // well-framed roaring payloads whose containers contradict their headers, run containers included (the writer never emits those)
   for b in crate::c05::roaring_payloads() { sink.case(case3(true, 1, &format!("{PREFIX}{}", BaseEncoding::encode(&zcomp(&b), Base::Base64Url))), "endpoint-roaring-containers"); }
   for _ in 0..(if thorough { 400 } else { 80 }) { let mut b = good.clone().into_bytes(); let k = rng.range(PREFIX.len() as i64, b.len() as i64 - 1) as usize; b[k] = *rng.pick(b"ABCxyz019-_+/=!"); sink.case(case3(true, 1, &String::from_utf8(b).unwrap()), "endpoint-char-flip"); }
+  // (5) the status entry: every spelling of the index property x every query shape, against small bitmaps
+  let props = ["5", "+5", "05", "0005", "", "+", "-0", "-5", " 5", "5 ", "5.0", "0x5", "five", "4294967295", "4294967296", "+4294967295", "99999999999999999999", "\u{665}", "5\u{0}", "0", "+0", "00"];
+  let queries = ["", "index=5", "index=05", "index=+5", "index=5&index=5", "index=5&index=6", "index=6&index=5", "Index=6", "index", "index=", "x=1&index=5", "x=index=9", "index=4294967295", "index=4294967296", "index=0", "a=b", "index=5&x", "index=five"];
+  let sets5: [&[u32]; 4] = [&[5], &[], &[0, 5, 6], &[4294967295]];
+  for (pi, p) in props.iter().enumerate() { for (qi, q) in queries.iter().enumerate() { if let Some(c) = case5(true, 2, p, 0, q, sets5[(pi + qi) % 4], (pi * 7919 + qi) as u32) { sink.case(c, "status-entry"); } } }
+  for q in queries.iter() { for (pk, ty, idk) in [(0i64, true, 0i64), (1, true, 0), (2, false, 0), (2, true, 1), (2, false, 1)] { if let Some(c) = case5(ty, pk, "5", idk, q, &[5], 5) { sink.case(c, "status-entry-shape"); } } }
+  for i in [0u32, 1, 9, 10, 99, 100, 65535, 65536, 999999999, 1000000000, 4294967294, 4294967295] { if let Some(c) = case5(true, 2, &i.to_string(), 0, &format!("index={i}"), &[i], i) { sink.case(c, "status-entry-new"); } }
+  for _ in 0..(if thorough { 2000 } else { 200 }) { let i = rng.below(1 << 32) as u32; let p = match rng.below(4) { 0 => format!("+{i}"), 1 => format!("0{i}"), 2 => format!("{}", i as u64 + rng.below(3)), _ => i.to_string() }; let q = match rng.below(4) { 0 => String::new(), 1 => format!("index={i}"), 2 => format!("index={}&index={i}", i as u64 + rng.below(2)), _ => format!("x=1&index={p}") };
+    let set: Vec<u32> = if rng.chance(1, 2) { vec![i] } else { vec![i.wrapping_add(1)] }; if let Some(c) = case5(true, 2, &p, 0, &q, &set, i) { sink.case(c, "status-entry-random"); } }
   // (4) histories of revoke / unrevoke batches through the document
   let pool: [u32; 12] = [0, 1, 2, 3, 7, 8, 65535, 65536, 65537, 131072, 4_000_000_000, u32::MAX];
   for _ in 0..(if thorough { 3000 } else { 400 }) {
